@@ -1,12 +1,13 @@
 #include "contract.h"
 TERM_GHOST_DEFS
-int g_node[12]; long long e_l[8]; int g_nhill, g_hill_w; long long g_hill_step; int g_hill_c, g_hill_s; int g_nsum; double g_kb;
+int g_node[12]; long long e_l[8]; int g_nhill, g_hill_w; long long g_hill_step; int g_hill_c, g_hill_s; int g_nsum; double g_kb; int g_inrange, g_sum_range;
 int g_throw, g_debug, g_vec_alloc; unsigned g_errors, g_error_bits; size_t g_alloc_bytes;
 long long g_step_rel, g_step_abs; int g_sim_continuing, g_sim_running;
 size_t nondet_size_t(void); int nondet_int(void); double nondet_double(void); _Bool nondet_bool(void); long long nondet_ll(void);
 double k_floor(double x) { return x; } double k_sqrt(double x) { return x; } double k_pow(double x, double y) { return x; }
 double k_target_temperature(void) { return 0.0; } double k_dt(void) { return 1.0; } int k_same_step(void) { return 0; }
-void h_new_hill(void) { g_debug = 0; g_tn = 0; g_nhill = 0; g_nsum = 0; g_kb = nondet_double(); g_step_abs = nondet_ll(); _Bool wt = nondet_bool(), ug = nondet_bool();
+void h_new_hill(void) { g_debug = 0; g_tn = 0; g_nhill = 0; g_nsum = 0; g_kb = nondet_double(); g_inrange = nondet_int(); g_step_abs = nondet_ll(); _Bool wt = nondet_bool(), ug = nondet_bool();
   k_new_hill(wt, ug);
-  if (wt && ug) __CPROVER_assert(0, "canary: well-tempered with grids reachable");
+  if (wt && ug && g_inrange) __CPROVER_assert(0, "canary: well-tempered with grids reachable");
+  if (wt && ug && !g_inrange) __CPROVER_assert(0, "canary: well-tempered deposition outside the grid reachable");
   if (!wt) __CPROVER_assert(0, "canary: plain metadynamics reachable"); }
